@@ -196,6 +196,10 @@ type Stream struct {
 	x   uint64
 	buf uint64
 	nb  int
+	// Short makes Read return fewer bytes than asked for (1, 5, 8, 3, 16, 2, ... per
+	// call), as an io.Reader may: callers must use io.ReadFull
+	Short bool
+	calls int
 }
 
 // NewStream makes an entropy stream from a seed.
@@ -207,7 +211,15 @@ func (s *Stream) Read(p []byte) (int, error) {
 		p[0] = 0x5a
 		return 1, nil
 	}
-	for i := 0; i < len(p); i++ {
+	n := len(p)
+	if s.Short {
+		k := [6]int{1, 5, 8, 3, 16, 2}[s.calls%6]
+		s.calls++
+		if k < n {
+			n = k
+		}
+	}
+	for i := 0; i < n; i++ {
 		if s.nb == 0 {
 			s.buf = splitmix(&s.x)
 			s.nb = 8
@@ -216,5 +228,5 @@ func (s *Stream) Read(p []byte) (int, error) {
 		s.buf >>= 8
 		s.nb--
 	}
-	return len(p), nil
+	return n, nil
 }
